@@ -112,9 +112,11 @@ async fn small_window_rival_cell(addr: SocketAddr, set: Arc<CertSet>, topic: Str
             break Ok(());
         }
     };
+    // "told so with the replier-already-bound error and then closed": whether an Ok precedes the
+    // error (the server acknowledges before it hands the stream to the router) is not part of it
     let want = vec!["Ok".to_string(), format!("Error({REPLIER_ALREADY_BOUND})")];
     let r = match verdict {
-        Ok(()) if seen == want => Ok(()),
+        Ok(()) if seen == want || seen == want[1..] => Ok(()),
         Ok(()) => Err(format!("it saw {seen:?} and then the end of its stream")),
         Err(e) => Err(format!("it saw {seen:?} and then: {e}")),
     };
@@ -124,7 +126,7 @@ async fn small_window_rival_cell(addr: SocketAddr, set: Arc<CertSet>, topic: Str
     let served = q.request("ping".to_string()).await;
     echo.abort();
     if let Err(e) = r {
-        return Err(fail("rejection-not-announced", &class, format!("a second replier whose stream grants {window} bytes of flow-control credit at a time must be told Ok, then the replier-already-bound error, then see its stream end; {e}")));
+        return Err(fail("rejection-not-announced", &class, format!("a second replier whose stream grants {window} bytes of flow-control credit at a time must be told the replier-already-bound error (after an Ok or without one) and then see its stream end; {e}")));
     }
     match served {
         Ok(s) if s == "A:ping" => Ok("refused-and-bound-replier-unaffected".into()),
@@ -171,7 +173,7 @@ pub async fn run(tier: &str, replaying: bool) -> ! {
     finish(
         rep,
         outs,
-        "every cell of: library rival - replier A bound, a second replier opened from {the same client as A, another client} x retry budget {0, 5 attempts 40 ms apart} keeps registering; 30 requests from a third client, 40 ms apart, must all be answered by A; raw rival - a second replier over a connection whose streams grant {9, 32, 68, 1024} (thorough 10 values) bytes of credit at a time must be told Ok, then replier-already-bound, then see the end of its stream, and A must still serve",
+        "every cell of: library rival - replier A bound, a second replier opened from {the same client as A, another client} x retry budget {0, 5 attempts 40 ms apart} keeps registering; 30 requests from a third client, 40 ms apart, must all be answered by A; raw rival - a second replier over a connection whose streams grant {9, 32, 68, 1024} (thorough 10 values) bytes of credit at a time must be told replier-already-bound (with or without an Ok before it), then see the end of its stream, and A must still serve",
         "rival kinds enumerated; every cell on a topic of its own on one real server",
         json!({}),
         replaying,
